@@ -27,7 +27,14 @@ theorem specAns_eq (shapes : List Shape) (u : Opts) (k : QKind) :
     specAns shapes u k = ansOf shapes (k.override u) k.report := rfl
 
 theorem fresh_cells {x : Index} (h : IdxOK x) (hf : x.status = .fresh) : x.cells = liveIds x.shapes := by
-  rw [h.cells, h.fresh hf, List.take_length]
+  rw [h.cells (h.freshRem hf), h.fresh hf, List.take_length]
+
+theorem vis_mau {f : Fixes} {x y : Index} (h : IdxOK x) (hy : maybeApplyUpdates f x = some y) (hv : Vis f x) :
+    Vis f y := by
+  rcases hv with hv | ⟨hg, hr⟩
+  · exact Or.inl hv
+  · have hm := mau_some h hy (Or.inr ⟨hg, hr⟩)
+    exact Or.inr ⟨by rw [mau_gone hy]; exact hg, hm.1.freshRem hm.2.2.2.1⟩
 
 structure FecPost (idx : Index) (q : EQ) (o : Opts) (rep : Report) (idx' : Index) (q' : EQ) (a : EQAns) : Prop where
   ans : a = ansOf idx.shapes o rep
@@ -38,19 +45,21 @@ structure FecPost (idx : Index) (q : EQ) (o : Opts) (rep : Report) (idx' : Index
   user : q'.user = q.user
   keep : idx.status = .fresh → idx' = idx
   num : NumOK idx q → NumOK idx' q'
+  gone : idx'.gone = idx.gone
 
 theorem fec_some {f : Fixes} {idx idx' : Index} {q q' : EQ} {thr : Nat} {o : Opts} {rep : Report} {a : EQAns}
     (hi : IdxOK idx) (hc : CovOK idx q)
-    (h : findEdgesCore f idx q thr o rep = some (idx', q', a)) : FecPost idx q o rep idx' q' a := by
+    (h : findEdgesCore f idx q thr o rep = some (idx', q', a))
+    (hv : Vis f idx := by first | exact Or.inl ⟨rfl, rfl⟩ | assumption) : FecPost idx q o rep idx' q' a := by
   unfold findEdgesCore at h
   by_cases hz : (o.distanceLimit == Lim.zero) = true
   · simp only [hz, if_true] at h
     injection h with h; injection h with h1 h2; injection h2 with h2 h3
     subst h1 h2 h3
-    exact ⟨by simp [ansOf, hz], hi, rfl, hc, rfl, rfl, fun _ => rfl, fun h => h⟩
+    exact ⟨by simp [ansOf, hz], hi, rfl, hc, rfl, rfl, fun _ => rfl, fun h => h, rfl⟩
   · simp only [hz] at h
     -- first stage: interiors
-    have stage : ∃ i ints, IdxOK i ∧ i.shapes = idx.shapes ∧ (idx.status = .fresh → i = idx) ∧
+    have stage : ∃ i ints, IdxOK i ∧ Vis f i ∧ i.gone = idx.gone ∧ i.shapes = idx.shapes ∧ (idx.status = .fresh → i = idx) ∧
         (ints = if o.includeInteriors then some (liveIds idx.shapes) else none) ∧
         ((if o.includeInteriors = true then (maybeApplyUpdates f idx).map fun i => (i, some i.cells)
           else some (idx, none)) = some (i, ints)) := by
@@ -59,11 +68,11 @@ theorem fec_some {f : Fixes} {idx idx' : Index} {q q' : EQ} {thr : Nat} {o : Opt
         cases hm : maybeApplyUpdates f idx with
         | none => simp [hm] at h
         | some i =>
-          obtain ⟨h1, h2, _, _, h5⟩ := mau_some hi hm
-          exact ⟨i, some i.cells, h1, h2, fun hf => mau_fresh_id hm hf, by simp [h5], by simp⟩
+          obtain ⟨h1, h2, _, _, h5⟩ := mau_some hi hm hv
+          exact ⟨i, some i.cells, h1, vis_mau hi hm hv, mau_gone hm, h2, fun hf => mau_fresh_id hm hf, by simp [h5], by simp⟩
       · simp only [hin] at h ⊢
-        exact ⟨idx, none, hi, rfl, fun _ => rfl, by simp, by simp⟩
-    obtain ⟨i, ints, hiok, hish, hikeep, hints, hst⟩ := stage
+        exact ⟨idx, none, hi, hv, rfl, rfl, fun _ => rfl, by simp, by simp⟩
+    obtain ⟨i, ints, hiok, hiv, hig, hish, hikeep, hints, hst⟩ := stage
     rw [hst] at h
     simp only at h
     have hci : CovOK i q := by
@@ -90,7 +99,7 @@ theorem fec_some {f : Fixes} {idx idx' : Index} {q q' : EQ} {thr : Nat} {o : Opt
     · -- brute force
       injection h with h; injection h with h1 h2; injection h2 with h2 h3
       subst h1 h2 h3
-      exact ⟨by simp [ansOf, hz, hints, hish], hiok, hish, hc2, hq2o, hq2u, hikeep, hq2n⟩
+      exact ⟨by simp [ansOf, hz, hints, hish], hiok, hish, hc2, hq2o, hq2u, hikeep, hq2n, hig⟩
     · -- optimized
       split at h
       · rename_i c hcov
@@ -98,7 +107,7 @@ theorem fec_some {f : Fixes} {idx idx' : Index} {q q' : EQ} {thr : Nat} {o : Opt
         subst h1 h2 h3
         obtain ⟨hf, hcc⟩ := hc2 c hcov
         have : c = liveIds idx.shapes := by rw [hcc, fresh_cells hiok hf, hish]
-        exact ⟨by simp [ansOf, hz, hints, this], hiok, hish, hc2, hq2o, hq2u, hikeep, hq2n⟩
+        exact ⟨by simp [ansOf, hz, hints, this], hiok, hish, hc2, hq2o, hq2u, hikeep, hq2n, hig⟩
       · rename_i hcov
         cases hm : maybeApplyUpdates f i with
         | none => simp [hm] at h
@@ -106,8 +115,8 @@ theorem fec_some {f : Fixes} {idx idx' : Index} {q q' : EQ} {thr : Nat} {o : Opt
           simp only [hm] at h
           injection h with h; injection h with h1 h2; injection h2 with h2 h3
           subst h1 h2 h3
-          obtain ⟨g1, g2, _, g4, g5⟩ := mau_some hiok hm
-          refine ⟨by simp [ansOf, hz, hints, g5, hish], g1, by rw [g2, hish], ?_, hq2o, hq2u, ?_, ?_⟩
+          obtain ⟨g1, g2, _, g4, g5⟩ := mau_some hiok hm hiv
+          refine ⟨by simp [ansOf, hz, hints, g5, hish], g1, by rw [g2, hish], ?_, hq2o, hq2u, ?_, ?_, by rw [mau_gone hm, hig]⟩
           · intro c hc'; simp at hc'; exact ⟨g4, hc'.symm⟩
           · intro hf; rw [mau_fresh_id hm (by rw [hikeep hf]; exact hf), hikeep hf]
           · intro hn
